@@ -81,6 +81,21 @@ theorem has_col {s : St} {c r : Nat} {cell : Cell} (h : Has s c r cell) :
   obtain ⟨col, hc, hr⟩ := h
   exact ⟨col, by simpa using List.mem_of_getElem? hc, hc, hr⟩
 
+/-- The span invariant read on `Has`: a line ends on a partner of the same operation, and every explicit
+cell strictly between its ends belongs to that operation. -/
+theorem span_clear_of_span {s : St} (hsp : Span s) {col r : Nat} {x : Cell} (hx : Has s col r x) {ln : Int × Nat}
+    (hln : ln ∈ x.sym.lines) :
+    ∃ (t : Nat) (y : Cell), (r : Int) + ln.1 = (t : Int) ∧ Has s col t y ∧
+      Sym.partnerOk ln.2 y.sym = true ∧ y.prov = x.prov ∧
+      ∀ (r' : Nat) (z : Cell), Between r t r' → Has s col r' z → z.prov = x.prov := by
+  obtain ⟨cl, hmem, hc, hr⟩ := has_col hx
+  obtain ⟨t, y, ht, hy, hp, hpr⟩ := hsp.partner cl hmem r x hr ln hln
+  refine ⟨t, y, ht, ⟨cl, hc, hy⟩, hp, hpr, ?_⟩
+  intro r' z hb hz
+  obtain ⟨cl', _, hc', hz'⟩ := has_col hz
+  rw [hc] at hc'; injection hc' with hc'; subst hc'
+  exact hsp.all cl hmem r x hr ln hln t ht r' z hb hz'
+
 /-! ## Bridge to the printed grid -/
 
 /-- An explicit cell of the matrix is printed, at its column and row, as its symbol. -/
